@@ -194,8 +194,29 @@ def _r_multi(dumper, data):
     return dumper.represent_mapping('!rm', {'k': 'rmv'})
 
 
+def _c_path(loader, node):
+    return ('PT', loader.construct_scalar(node))
+
+
+def _c_implicit(loader, node):
+    return ('IR', loader.construct_scalar(node))
+
+
+IMPLICIT_RE = re.compile(r'^ir[0-9]+$')
+
+
+def _customise_resolver(c):
+    """Every user subclass also customises the resolver: a path resolver (the value under key pk of a mapping that is
+    the first child of the root) and an implicit resolver."""
+    c.add_path_resolver('!pt', [0, 'pk'], str)
+    c.add_implicit_resolver('!ir', IMPLICIT_RE, ['i'])
+
+
 def _mk_loader(base):
     c = type('User' + base.__name__, (base,), {})
+    _customise_resolver(c)
+    c.add_constructor('!pt', _c_path)
+    c.add_constructor('!ir', _c_implicit)
     c.add_constructor('!u', _c_scalar)
     c.add_constructor('!uq', _c_seq)
     c.add_constructor('!umap', _c_map)
@@ -206,6 +227,7 @@ def _mk_loader(base):
 
 def _mk_dumper(base):
     c = type('User' + base.__name__, (base,), {})
+    _customise_resolver(c)
     c.add_representer(VE, _r_ve)
     c.add_representer(RU, _r_ru)
     c.add_multi_representer(RMBase, _r_multi)
@@ -237,6 +259,7 @@ ITEM_TEXT = {
     'te': '- !e!str vt', 'tb': '- !!str vb', 'SE': '- "unterminated', 'PE': '- &p &q x',
     'KE': '- {[k]: v}', 'py': '- !!python/object/apply:collections.OrderedDict [[[k, v]]]',
     'dk': '- !!python/object/apply:collections.OrderedDict [!!python/name:no.such.module.x y]',
+    'pt': '- {pk: ptv, other: [x, {pk: y}]}', 'ir': '- ir42',
     'cu': '- !u vu', 'cg': '- !ug [g1, !u g2]', 'cm': '- !um:sfx vm',
 }
 DOCS = {
@@ -245,7 +268,7 @@ DOCS = {
     'tagdir': (False, True, ['te']), 'usetag': (False, False, ['te']), 'stdtag': (False, False, ['tb']),
     'anchors': (False, False, ['da', 'ua']), 'usealias': (False, False, ['ua']), 'rec': (False, False, ['rec']),
     'pyobj': (False, False, ['py']), 'deepfail': (False, False, ['s', 'dk']), 'ucall': (False, False, ['cu', 's']),
-    'ugen': (False, False, ['cg', 'cu']), 'umulti': (False, False, ['s', 'cm']),
+    'ugen': (False, False, ['cg', 'cu']), 'umulti': (False, False, ['s', 'cm']), 'paths': (False, False, ['pt', 'ir', 's']),
 }
 
 
@@ -275,6 +298,7 @@ VALS = {
     'usesve': (False, False, ['ve', 's'], False), 'verv': (False, True, ['s'], False), 'urepr': (False, False, ['ru', 's'], False),
     'umrepr': (False, False, ['x1', 'rm', 'x1'], False), 'uni': (False, False, ['nu', 's'], False),
     'uniau': (False, False, ['nu', 's'], True), 'scalarv': (False, False, ['S'], False),
+    'pathsv': (False, False, ['pv', 'iv', 's'], False),
 }
 
 
@@ -285,11 +309,12 @@ def make_value(name):
     x1, x2, rec = ['x1v'], ['x2v'], []
     rec.append(rec)
     m = {'s': lambda: 'sv', 'x1': lambda: x1, 'x2': lambda: x2, 'rec': lambda: rec, 've': VE, 'RE': Unrepresentable,
-         'ru': RU, 'rm': RMSub, 'nu': lambda: 'caf\xe9'}
+         'ru': RU, 'rm': RMSub, 'nu': lambda: 'caf\xe9',
+         'pv': lambda: {'pk': 'ptv', 'other': ['x', {'pk': 'y'}]}, 'iv': lambda: 'ir42'}
     return [m[i]() for i in items]
 
 
-STR, SEQ = 'tag:yaml.org,2002:str', 'tag:yaml.org,2002:seq'
+STR, SEQ, MAP = 'tag:yaml.org,2002:str', 'tag:yaml.org,2002:seq', 'tag:yaml.org,2002:map'
 
 
 def make_node(name):
@@ -318,6 +343,13 @@ def make_node(name):
             kids.append(N.MappingNode('!rm', [(N.ScalarNode(STR, 'k'), N.ScalarNode(STR, 'rmv'))], flow_style=True))
         elif it == 'nu':
             kids.append(N.ScalarNode(STR, 'caf\xe9'))
+        elif it == 'iv':
+            kids.append(N.ScalarNode(STR, 'ir42'))
+        elif it == 'pv':
+            inner = N.MappingNode(MAP, [(N.ScalarNode(STR, 'pk'), N.ScalarNode(STR, 'y'))], flow_style=True)
+            kids.append(N.MappingNode(MAP, [(N.ScalarNode(STR, 'pk'), N.ScalarNode(STR, 'ptv')),
+                                            (N.ScalarNode(STR, 'other'), N.SequenceNode(SEQ, [N.ScalarNode(STR, 'x'), inner], flow_style=True))],
+                                      flow_style=True))
         else:
             kids.append(N.ScalarNode(STR, 'sv'))
     return N.SequenceNode(SEQ, kids, flow_style=False)
@@ -370,6 +402,14 @@ def make_events(names):
                 evs.append(E.MappingEndEvent())
             elif it == 'nu':
                 evs.append(E.ScalarEvent(None, None, (True, False), 'caf\xe9'))
+            elif it == 'iv':
+                evs.append(E.ScalarEvent(None, None, (True, False), 'ir42'))
+            elif it == 'pv':
+                sc = lambda x: E.ScalarEvent(None, None, (True, False), x)
+                evs += [E.MappingStartEvent(None, None, True, flow_style=True), sc('pk'), sc('ptv'), sc('other'),
+                        E.SequenceStartEvent(None, None, True, flow_style=True), sc('x'),
+                        E.MappingStartEvent(None, None, True, flow_style=True), sc('pk'), sc('y'), E.MappingEndEvent(),
+                        E.SequenceEndEvent(), E.MappingEndEvent()]
             else:
                 evs.append(E.ScalarEvent(None, None, (True, False), 'sv' if it != 'RE' else 'unrepresentable'))
         evs.append(E.SequenceEndEvent())
